@@ -52,6 +52,7 @@ for flat in (True, False):
                 KEYMAPS.append({'cls': 'stringmap', 'opt': enc, 'flat': flat, 'typed': typed, 'sentinel': sentinel})
             for ser in (None, 'dill', 'dill-module'):
                 KEYMAPS.append({'cls': 'picklemap', 'opt': ser, 'flat': flat, 'typed': typed, 'sentinel': sentinel})
+            KEYMAPS.append({'cls': 'picklemap', 'opt': 'dill', 'proto': 2, 'flat': flat, 'typed': typed, 'sentinel': sentinel})
             for alg in ('md5', 'sha1', 'sha256'):
                 KEYMAPS.append({'cls': 'hashmap', 'opt': alg, 'flat': flat, 'typed': typed, 'sentinel': sentinel})
 
@@ -93,7 +94,9 @@ def key_item(draw):
     vals = hashable_values() if km['cls'] == 'keymap' else stable_values()
     b = draw(S.bindings(sig, vals))
     forms = [draw(st.integers(0, 255)) for _ in range(3)]
-    return {'sig': sig, 'binding': b, 'forms': forms, 'keymap': km, 'path': draw(st.sampled_from(['fkey', 'keygen'])),
+    # 'process state': in ONE of the three interpreters the same keymap is first asked for the key of an argument it cannot
+    # encode (a generator); the keys computed afterwards must not depend on that
+    return {'sig': sig, 'binding': b, 'forms': forms, 'keymap': km, 'path': draw(st.sampled_from(['fkey', 'keygen'])), 'pre': draw(st.sampled_from([None, None, 'gen'])),
             'module': draw(st.sampled_from(['std', 'safe'])), 'algo': draw(st.sampled_from(H.ALGOS))}
 
 
@@ -115,8 +118,15 @@ def session_cases(draw):
         kms = [k for k in KEYMAPS if k['cls'] != 'keymap']
     else:
         kms = KEYMAPS
+    pathy = False
     if A.is_dir(cfg):
-        kms = [k for k in kms if k['cls'] in ('hashmap', 'picklemap')]      # directory-name-safe keys
+        if draw(st.integers(0, 3)) == 0 and codec != 'json':
+            # text keys in a directory archive, with arguments that contain a path separator (file names, URLs): entries end up in nested
+            # directories, which per-key loads handle; '-' and '_' are left out of the arguments (they share a directory name: finding D8a)
+            kms = [k for k in kms if k['cls'] in ('stringmap', 'keymap') and k['flat'] and not k.get('then')]
+            pathy = True
+        else:
+            kms = [k for k in kms if k['cls'] in ('hashmap', 'picklemap')]      # directory-name-safe keys
     # shake_* digests need a length: klepto's hash() cannot produce a key with them at all (every call raises / falls back): not a stability matter
     kms = [k for k in kms if not (k['cls'] == 'hashmap' and str(k['opt']).startswith('shake_'))]
     # a non-flat raw key is (args, {kwds}): unhashable, so no cache can store under it (safe caches just evaluate): nothing to find in a later session
@@ -124,6 +134,8 @@ def session_cases(draw):
     km = draw(st.sampled_from(kms))
     sig = draw(S.signatures())
     vals = st.one_of(V.ints(), V.strs(False), V.floats(), V.NONE, V.BOOLS, st.lists(st.one_of(V.ints(), V.strs(False)), max_size=2).map(lambda xs: ['t', xs]))
+    if pathy:
+        vals = st.one_of(st.integers(0, 6).map(lambda i: ['i', i]), st.sampled_from([['s', 'a/b'], ['s', 'u/v/w.txt'], ['s', 'http://x/y'], ['s', 'ab'], ['s', 'c.d']]))
     n = draw(st.integers(1, 5))
     calls = [{'binding': draw(S.bindings(sig, vals)), 'forms': [draw(st.integers(0, 255)), draw(st.integers(0, 255))]} for _ in range(n)]
     return {'mode': 'session', 'cfg': cfg, 'keymap': km, 'sig': sig, 'calls': calls, 'algo': draw(st.sampled_from(['lru', 'lfu', 'mru', 'rr', 'inf', 'no'])),
@@ -178,6 +190,12 @@ def compute_keys(items, which):
             rec['input'] = ('unbindable', repr(e))
         try:
             km = H.make_keymap(it['keymap'])
+            if it.get('pre') == 'gen' and which == 1:
+                try:
+                    km((i for i in range(2)))
+                except Exception:
+                    pass
+                rec['pre'] = True
             if it['path'] == 'fkey':
                 f = H.decorator_class(it['module'], it['algo'])(keymap=km)(fn)
                 key = f.key(*a, **k)
@@ -316,6 +334,8 @@ def _session(case):
     root = tempfile.mkdtemp(prefix='c17_', dir=_tmproot())
     cfg = case['cfg']
     classes = ['session', 'session-cfg:' + cfg, 'session-keymap:' + case['keymap']['cls']]
+    if A.is_dir(cfg) and case['keymap']['cls'] in ('stringmap', 'keymap'):
+        classes.append('session_dir_text_keys')
     out = []
     try:
         w = worker(1).request({'cmd': 'call', 'mod': 'props.c17', 'fn': 'session_try', 'args': {'case': case, 'root': root, 'which': 0}}, timeout=120)[1]
@@ -351,6 +371,6 @@ def session_try(case, root, which):
         return ('exc', '%r\n%s' % (e, traceback.format_exc()[-1500:]))
 
 
-REQUIRED_CLASSES = ['main_class_instance', 'mode:keys', 'mode:sessions', 'has_str', 'two_keywords', 'session_other_spelling', 'keymap:keymap', 'keymap:stringmap', 'keymap:picklemap', 'keymap:hashmap'] + \
+REQUIRED_CLASSES = ['session_dir_text_keys', 'main_class_instance', 'mode:keys', 'mode:sessions', 'has_str', 'two_keywords', 'session_other_spelling', 'keymap:keymap', 'keymap:stringmap', 'keymap:picklemap', 'keymap:hashmap'] + \
     ['session-cfg:' + c for c in SESSION_CFGS]
 TRIGGERS = {}
